@@ -159,8 +159,40 @@ Definition write_triple {A B C} (wa : A -> bytes) (wb : B -> bytes) (wc : C -> b
 Definition read_triple {A B C} (ra : Rd A) (rb : Rd B) (rc : Rd C) : Rd (A * B * C) :=
   a <- ra ;; b <- rb ;; c <- rc ;; ret (a, b, c).
 
+(* (): nothing is written, nothing is read *)
+Definition write_unit (_ : unit) : bytes := [].
+Definition read_unit : Rd unit := ret tt.
+
+(* (T1,) and the tuples of arity 4, 5, 6 (serde/mod.rs has one impl per arity 1..6): the fields in order *)
+Definition write_tup1 {A} (wa : A -> bytes) (t : A) : bytes := wa t.
+Definition read_tup1 {A} (ra : Rd A) : Rd A := v1 <- ra ;; ret v1.
+Definition write_tup4 {A B C D} (wa : A -> bytes) (wb : B -> bytes) (wc : C -> bytes) (wd : D -> bytes)
+    (t : A * B * C * D) : bytes :=
+  let '(a, b, c, d) := t in wa a ++ wb b ++ wc c ++ wd d.
+Definition read_tup4 {A B C D} (ra : Rd A) (rb : Rd B) (rc : Rd C) (rd : Rd D) : Rd (A * B * C * D) :=
+  v1 <- ra ;; v2 <- rb ;; v3 <- rc ;; v4 <- rd ;; ret (v1, v2, v3, v4).
+Definition write_tup5 {A B C D E} (wa : A -> bytes) (wb : B -> bytes) (wc : C -> bytes) (wd : D -> bytes)
+    (we : E -> bytes) (t : A * B * C * D * E) : bytes :=
+  let '(a, b, c, d, e) := t in wa a ++ wb b ++ wc c ++ wd d ++ we e.
+Definition read_tup5 {A B C D E} (ra : Rd A) (rb : Rd B) (rc : Rd C) (rd : Rd D) (re : Rd E)
+    : Rd (A * B * C * D * E) :=
+  v1 <- ra ;; v2 <- rb ;; v3 <- rc ;; v4 <- rd ;; v5 <- re ;; ret (v1, v2, v3, v4, v5).
+Definition write_tup6 {A B C D E F} (wa : A -> bytes) (wb : B -> bytes) (wc : C -> bytes) (wd : D -> bytes)
+    (we : E -> bytes) (wf : F -> bytes) (t : A * B * C * D * E * F) : bytes :=
+  let '(a, b, c, d, e, f) := t in wa a ++ wb b ++ wc c ++ wd d ++ we e ++ wf f.
+Definition read_tup6 {A B C D E F} (ra : Rd A) (rb : Rd B) (rc : Rd C) (rd : Rd D) (re : Rd E) (rf : Rd F)
+    : Rd (A * B * C * D * E * F) :=
+  v1 <- ra ;; v2 <- rb ;; v3 <- rc ;; v4 <- rd ;; v5 <- re ;; v6 <- rf ;; ret (v1, v2, v3, v4, v5, v6).
+
+(* [T] (slice; Serializable only): write_usize(len); for element in self.iter() { element.write_into(target) } —
+   the loop appends to the target one element at a time.  There is no reader for [T]; the bytes are read back as Vec<T>. *)
+Definition write_slice {A} (w : A -> bytes) (l : list A) : bytes :=
+  fold_left (fun target e => target ++ w e) l (write_usize (Z.of_nat (length l))).
+
 (* String: length (vint64) + bytes, written/read one u8 at a time; UTF-8 validity is an oracle *)
 Definition write_string (s : bytes) : bytes := write_usize (len s) ++ write_many write_u8 s.
+(* str (Serializable only): the same two statements as String; read back as String *)
+Definition write_str (s : bytes) : bytes := write_usize (len s) ++ write_many write_u8 s.
 Definition read_string (utf8_valid : bytes -> bool) : Rd bytes :=
   n <- read_usize ;; data <- read_many read_u8 n ;;
   if utf8_valid data then ret data else fail Invalid.
